@@ -15,6 +15,10 @@ func init() { register("C05", checkC05) }
 
 func checkC05(P *core.Program, R *core.Report) {
 	defer checkKeeperArgsNotNil(P, R)
+	// shares minted for a single-asset join never exceed the exact zero-fee value of the same
+	// expression: the fee ratio shrinks the counted deposit, the share formula is monotone in it,
+	// and the Dec→Int conversion truncates (direction analysis, DESIGN §2 R10)
+	checkIdealDirection(P, R, "C05-direction", "c03_ranges.json", "x/amm/types.Pool.calcSingleAssetJoin", 0, core.DLe, "single-asset join: shares ≤ exact zero-fee value")
 	R.Explanation = "Only the last sentence of the statement (an exit can never take a reserve to zero or burn all shares) and its guards are decided; the value inequalities (minted shares ≤ deposit value, per-share value non-decreasing, rounding allowances) are inequalities between fixed-point results and are not decidable here. " +
 		"Decided by must-hold facts: Keeper.ExitPool reaches Pool.ExitPool / ApplyExitPoolStateChange only with shareIn < totalShares and 0 < shareIn; CalcExitPool's success exits carry exitingShares < totalShares and its all-asset loop adds a coin only with 0 < exitAmt < reserve; " +
 		"processExitPool hands UpdatePoolAssetBalances the value GetTotalPoolLiquidity().Sub(exitingCoins) only under len(balances) == len(PoolAssets) (completeness guard: Coins.Sub drops a zeroed denom — the repair of F-05) and lowers TotalShares by exactly exitingShares; UpdatePoolAssetBalance writes a balance only with 0 < amount."
